@@ -115,7 +115,7 @@ def gen_cases(tier, seed):
 
 
 def run_case(case, tier):
-    rig = ManagerRig(stepped=True, timecode=bool(case.get("tc")))
+    rig = ManagerRig(stepped=True, timecode=bool(case.get("tc")), loud=bool(case.get("n", 0) % 4 == 2))   # every fourth case: the manager publishes its own log messages
     try:
         sc = Scenario(rig, case["seed"])
         sc.vary_source = True
